@@ -264,3 +264,6 @@ def run(chk, repo):
     from rules.shared import optname
     chk.clauses.append('C20.g (shared R-THREAD) an option value bound to a name that is itself a CLI option carries that very option')
     optname(chk, repo, 'C20.g', ['cli.decoy_fasta'], floor=0)
+    from rules.shared import kwname
+    chk.clauses.append('C20.kw (shared R-THREAD) parameters handed on as keyword arguments keep their name: no `a=b` between two parameters of one function')
+    kwname(chk, repo, 'C20.kw', ['cli.decoy_fasta'], floor=0)
